@@ -258,13 +258,23 @@ func ruleFillGuards(w *World, r *Report, pfx string) {
 				if !ok || sub.Op != token.SUB {
 					return false
 				}
-				c, ok := p.stripR(Val{sub.X, v.F, v.E}).V.(*ssa.Call)
+				// width - a - b is read as width - (a + b)
+				var terms []ssa.Value
+				left := p.stripR(Val{sub.X, v.F, v.E})
+				for i := 0; i < 4; i++ {
+					inner, ok := left.V.(*ssa.BinOp)
+					if !ok || inner.Op != token.SUB {
+						break
+					}
+					terms = append(terms, p.stripR(Val{inner.Y, left.F, left.E}).V)
+					left = p.stripR(Val{inner.X, left.F, left.E})
+				}
+				c, ok := left.V.(*ssa.Call)
 				if !ok || c.Call.StaticCallee() == nil || c.Call.StaticCallee().Name() != "CheckRequestedWidth" {
 					return false
 				}
 				// what is taken off the allotted width: the widths of exactly the components written
 				// around the body (the brackets) on this path
-				var terms []ssa.Value
 				var flat func(x Val)
 				flat = func(x Val) {
 					x = p.stripR(x)
